@@ -98,7 +98,10 @@ impl Intern<Ty> {
     #[verifier::external_body]
     pub fn struct_layout(&self) -> (r: Option<StructLayout>)
         ensures is_struct_ty(*self.0) ==> r is Some && r->0.view() == tstruct(*self.0)
-                    && struct_layout_ok(*self.0, tstruct(*self.0))
+                    && struct_layout_ok(*self.0, tstruct(*self.0)),
+                // through distinct / variant wrappers: the entry of the wrapped struct
+                is_struct_ty(spec_abs(*self.0)) ==> r is Some && r->0.view() == tstruct(spec_abs(*self.0))
+                    && struct_layout_ok(spec_abs(*self.0), tstruct(spec_abs(*self.0))),
     { unimplemented!() }
     #[verifier::external_body]
     pub fn enum_layout(&self) -> (r: Option<EnumLayout>)
